@@ -92,6 +92,18 @@ def run(ctx):
     def audit(rec, where, rerun):
         """reported optimum vs independent formulation"""
         d = rec["lp_in"]
+        if d["add_meat"] and "iso3" in where:
+            # the caps handed to the optimiser must be this round's own slaughter (running total, grand total)
+            acc, worst = 0.0, 0.0
+            for m, x in enumerate(d["meat_monthly"]):
+                acc += x
+                worst = max(worst, abs(acc - d["meat_running"][m]) / (1.0 + abs(acc)))
+            worst = max(worst, abs(d["meat_total"] - acc) / (1.0 + abs(acc)))
+            if worst > 1e-9:
+                ctx.violation("C02:meat-caps-differ-from-this-rounds-slaughter",
+                              f"running total / grand total of meat handed to the optimiser differ from the cumulative monthly "
+                              f"slaughter of the same round by {worst:.3g} (relative) on {where}",
+                              dict(kind="counterexample", where=where, lp_in=d, **rerun))
         st, opt, _x = lpspec.solve_spec(d, rec["ty"])
         rep = rec["percent_fed_from_model"]
         dist[rec["ty"]] += 1
